@@ -173,46 +173,64 @@ def confirm_neutral(name: str, src: str) -> int:
         shutil.rmtree(tmp, ignore_errors=True)
 
 
-def rerun(only=()) -> int:
+def rerun(only=(), jobs: int = 12) -> int:
+    """All 20 checks on every kept change, each in its own scratch copy of HEAD (removed afterwards); meta.json is updated."""
+    import concurrent.futures as cf
     root = os.path.join(VERIF, "seeded")
-    bad = 0
+    names = []
     for name in sorted(os.listdir(root)) if os.path.isdir(root) else []:
         if only and not any(name.startswith(o) for o in only):
             continue
+        if os.path.isfile(os.path.join(root, name, "patch.diff")):
+            names.append(name)
+    tmp = tempfile.mkdtemp(prefix="vstatic-seed-")
+    base = os.path.join(tmp, "base")
+    os.makedirs(base)
+    sh(["bash", "-c", f"git -C {REPO} archive HEAD pykdebugparser | tar -x -C {base}"])
+
+    def one(name):
         d = os.path.join(root, name)
-        patch = os.path.join(d, "patch.diff")
-        if not os.path.isfile(patch):
-            continue
-        tmp = tempfile.mkdtemp(prefix="vstatic-seed-")
-        wt = os.path.join(tmp, "wt")
+        wd = tempfile.mkdtemp(prefix="w-", dir=tmp)
         try:
-            sh(["git", "-C", REPO, "worktree", "add", "-q", "--detach", wt, "HEAD"])
-            rc, out = sh(["git", "-C", wt, "apply", "--whitespace=nowarn", patch])
+            sh(["cp", "-r", os.path.join(base, "pykdebugparser"), wd])
+            rc, out = sh(["git", "apply", "--whitespace=nowarn", os.path.join(d, "patch.diff")], cwd=wd)
             if rc:
-                print(f"{name}: patch no longer applies")
-                continue
-            meta = json.load(open(os.path.join(d, "meta.json")))
-            target = meta.get("property")
-            neutral = meta.get("kind") == "neutral-refactor"
-            props = sorted(set([target] + meta.get("checks_reporting_violation", []))) if target else PROPS
-            checks = run_checks(wt, os.path.join(tmp, "out"), PROPS)
-            caught = sorted(p for p, r in checks.items() if r["exit"] == 1)
-            errors = sorted(p for p, r in checks.items() if r["exit"] == 2)
-            meta["checks_reporting_violation"] = caught
-            meta["checks_analysis_error"] = errors
-            meta["reports"] = {p: checks[p]["fails"][:2] for p in caught}
-            meta["error_reports"] = {p: checks[p]["errors"][:1] for p in errors}
-            json.dump(meta, open(os.path.join(d, "meta.json"), "w"), indent=1)
-            if neutral:
-                print(f"{name}: neutral refactoring; false alarms: {caught}; analysis errors: {errors}")
-                bad += 1 if caught else 0
-            else:
-                hit = target in caught
-                print(f"{name}: target {target} {'CAUGHT' if hit else 'MISSED'}; reporting: {caught}; errors: {errors}")
-                bad += 0 if hit else 1
+                return name, None
+            return name, run_checks(wd, os.path.join(wd, "vout"), PROPS)
         finally:
-            sh(["git", "-C", REPO, "worktree", "remove", "--force", wt])
-            shutil.rmtree(tmp, ignore_errors=True)
+            shutil.rmtree(wd, ignore_errors=True)
+
+    bad = 0
+    try:
+        with cf.ThreadPoolExecutor(max_workers=jobs) as ex:
+            results = dict(ex.map(one, names))
+    finally:
+        shutil.rmtree(tmp, ignore_errors=True)
+    for name in names:
+        checks = results[name]
+        d = os.path.join(root, name)
+        if checks is None:
+            print(f"{name}: patch no longer applies")
+            bad += 1
+            continue
+        meta = json.load(open(os.path.join(d, "meta.json")))
+        target = meta.get("property")
+        neutral = meta.get("kind") == "neutral-refactor"
+        caught = sorted(p for p, r in checks.items() if r["exit"] == 1)
+        errors = sorted(p for p, r in checks.items() if r["exit"] == 2)
+        meta["checks_reporting_violation"] = caught
+        meta["checks_analysis_error"] = errors
+        meta["reports"] = {p: checks[p]["fails"][:2] for p in caught}
+        meta["error_reports"] = {p: checks[p]["errors"][:1] for p in errors}
+        json.dump(meta, open(os.path.join(d, "meta.json"), "w"), indent=1)
+        if neutral:
+            print(f"{name}: neutral refactoring; false alarms: {caught}; analysis errors: {errors}")
+            bad += 1 if caught else 0
+        else:
+            hit = target in caught
+            verdict = "CAUGHT" if hit else ("not decided (recorded)" if meta.get("outside") else "MISSED")
+            print(f"{name}: target {target} {verdict}; reporting: {caught}; errors: {errors}")
+            bad += 0 if (hit or meta.get("outside")) else 1
     return 1 if bad else 0
 
 
